@@ -1800,14 +1800,34 @@ class Module(ABC):
         if name in channel_names:
             channel_cols = list(channel.channel_params.keys())
             channel_cols += list(channel.channel_states.keys())
-            self.base.nodes.loc[self._nodes_in_view, channel_cols] = float("nan")
+            # Parameters and states can be shared with other channels (e.g. `vt`, `eK`).
+            # They must survive where another channel that uses them is present.
+            for col in channel_cols:
+                used_by_others = np.zeros(len(self.base.nodes), dtype=bool)
+                for other in self.base.channels:
+                    if other._name != name and col in (
+                        list(other.channel_params) + list(other.channel_states)
+                    ):
+                        used_by_others |= self.base.nodes[other._name].to_numpy(bool)
+                rows = self._nodes_in_view[~used_by_others[self._nodes_in_view]]
+                self.base.nodes.loc[rows, col] = float("nan")
             self.base.nodes.loc[self._nodes_in_view, name] = False
 
             # only delete cols if no other comps in the module have the same channel
             if np.all(~self.base.nodes[name]):
                 self.base.channels.pop(all_channel_names.index(name))
-                self.base.membrane_current_names.remove(channel.current_name)
-                self.base.nodes.drop(columns=channel_cols + [name], inplace=True)
+                other_cols = sum(
+                    [
+                        list(c.channel_params) + list(c.channel_states)
+                        for c in self.base.channels
+                    ],
+                    [],
+                )
+                other_currents = [c.current_name for c in self.base.channels]
+                if channel.current_name not in other_currents:
+                    self.base.membrane_current_names.remove(channel.current_name)
+                unshared_cols = [c for c in channel_cols if c not in other_cols]
+                self.base.nodes.drop(columns=unshared_cols + [name], inplace=True)
         else:
             raise ValueError(f"Channel {name} not found in the module.")
 
